@@ -145,8 +145,15 @@ func Explore(t *testing.T, sc *Scenario, oracle Oracle, sh vr.ShardInfo, dir str
 
 	exec := func(path []string) ExecResult {
 		var res ExecResult
-		for attempt := 0; attempt < 3; attempt++ {
+		for attempt, hard := 0, 0; hard < 3 && attempt < 200; attempt++ {
 			res = Exec(t, sc, oracle, path, false)
+			if strings.Contains(res.Err, RetryPrefix) {
+				p.Add("discarded_random_election_timeouts", 1)
+				continue
+			}
+			if res.Err != "" {
+				hard++
+			}
 			p.Add("executions", 1)
 			if p.Counters["executions"]%gcEvery == 0 {
 				runtime.GC()
@@ -167,7 +174,12 @@ func Explore(t *testing.T, sc *Scenario, oracle Oracle, sh vr.ShardInfo, dir str
 	succKeys := func(path []string, enabled string) string {
 		var ks []string
 		for _, tr := range splitPath(enabled) {
-			r := Exec(t, sc, oracle, append(append([]string{}, path...), tr), false)
+			var r ExecResult
+			for n := 0; n < 200; n++ {
+				if r = Exec(t, sc, oracle, append(append([]string{}, path...), tr), false); !strings.Contains(r.Err, RetryPrefix) {
+					break
+				}
+			}
 			p.Add("executions", 1)
 			ks = append(ks, fmt.Sprintf("%s=%x/%s", tr, vr.Hash64(r.Key), r.Sig))
 		}
